@@ -459,9 +459,10 @@ theorem KInv_step {cfg : Cfg} (wf : WF cfg) {s s' : State} {l : Label} (hI : Inv
   | cbFail i hi hf =>
       exact KInv_finish wf (s := { s with log := s.log ++ [i], cbLock := false,
                                           cbIn := if (cfg.pool (cfg.poolOf i)).innerCb
-                                            then s.cbIn.set (cfg.poolOf i) false else s.cbIn })
+                                            then s.cbIn.set (cfg.poolOf i) false else s.cbIn,
+                                          tLocks := s.tLocks.set (cfg.obj i) false })
         (KInv_congr h rfl rfl (fun _ => rfl) (fun _ => rfl))
-        (SInv_congr hs rfl rfl rfl rfl (by simp only; split <;> simp) (fun _ => rfl) (fun _ => rfl))
+        (SInv_congr hs rfl rfl (by simp) rfl (by simp only; split <;> simp) (fun _ => rfl) (fun _ => rfl))
         false hi rfl
   | cbOk i hi hf => exact KInv_set h hi rfl rfl rfl rfl
   | tAcq i hi hl => exact KInv_set h hi rfl rfl rfl rfl
@@ -798,10 +799,11 @@ theorem EInv_step {cfg : Cfg} (wf : WF cfg) {s s' : State} {l : Label} (hI : Inv
   | cbFail i hi hf =>
       exact EInv_finish wf (s := { s with log := s.log ++ [i], cbLock := false,
                                           cbIn := if (cfg.pool (cfg.poolOf i)).innerCb
-                                            then s.cbIn.set (cfg.poolOf i) false else s.cbIn })
+                                            then s.cbIn.set (cfg.poolOf i) false else s.cbIn,
+                                          tLocks := s.tLocks.set (cfg.obj i) false })
         (EInv_congr h rfl rfl (fun _ => rfl) (fun _ => rfl))
         (KInv_congr hk rfl rfl (fun _ => rfl) (fun _ => rfl))
-        (SInv_congr hs rfl rfl rfl rfl (by simp only; split <;> simp) (fun _ => rfl) (fun _ => rfl))
+        (SInv_congr hs rfl rfl (by simp) rfl (by simp only; split <;> simp) (fun _ => rfl) (fun _ => rfl))
         false hi rfl
   | cbOk i hi hf => exact EInv_set h hi rfl rfl rfl rfl
   | tAcq i hi hl => exact EInv_set h hi rfl rfl rfl rfl
